@@ -80,16 +80,28 @@ func (l *naiveCreator) CreateWithTTL(ctx context.Context, key []byte, val []byte
 				return parseErr
 			}
 
-			if isTombstone && prevRevision < revision {
+			for attempt := 0; isTombstone && prevRevision < revision; attempt++ {
 				err = l.update(ctx, revisionKey, objectKey, val, revisionBytes, oldRev, ttl)
-				if errors.Is(err, storage.ErrCASFailed) {
-					// the deleted key's revision record can be compacted between the failed create and
-					// this update: the key is then absent, nobody else has written it, just create again
-					if _, getErr := l.store.Get(ctx, revisionKey); errors.Is(getErr, storage.ErrKeyNotFound) {
-						return l.create(ctx, revisionKey, objectKey, val, revisionBytes, ttl)
-					}
+				if !errors.Is(err, storage.ErrCASFailed) {
+					return err
 				}
-				return err
+				// the deleted key's revision record can be compacted between the failed create and
+				// this update: the key is then absent, nobody else has written it, just create again
+				curRev, getErr := l.store.Get(ctx, revisionKey)
+				if errors.Is(getErr, storage.ErrKeyNotFound) {
+					return l.create(ctx, revisionKey, objectKey, val, revisionBytes, ttl)
+				}
+				if getErr != nil || attempt >= 3 {
+					return err
+				}
+				// ... or rewritten by the repair of an uncertain delete (N|deleted -> M|deleted): the key is
+				// still deleted and nobody has created it, so the condition is evaluated again on the record
+				// as it is now (a live record, or a deletion at or above this revision, ends the loop)
+				prevRevision, isTombstone, parseErr = coder.ParseRevision(curRev)
+				if parseErr != nil {
+					return err
+				}
+				oldRev = curRev
 			}
 			return storage.ErrCASFailed
 		}
